@@ -94,8 +94,9 @@ def _build_program(args):
     d = os.path.join(tmp, "prog%d" % k if k >= 0 else "progT")
     os.makedirs(d)
     tape = Tape(seed=seed)
-    force = [["chain"], ["enum", "template"], ["objargs", "plainchain"], ["chain", "objargs", "template"], ["plainchain"],
-             ["enum_nested", "chain"], ["template"], ["objargs", "template", "enum_nested"]][k % 8]
+    force = [["chain", "overloads"], ["enum", "template"], ["objargs", "plainchain"], ["chain", "objargs", "template"],
+             ["plainchain", "overloads"], ["enum_nested", "chain"], ["template", "overloads"],
+             ["objargs", "template", "enum_nested"]][k % 8]
     feats = {"enums": True, "force": force}
     if k < 0:          # the `thisargs` program: class templates using `This` as argument / return everywhere
         feats = {"enums": True, "force": ["template", "template", "enum_nested"], "this_args": True,
@@ -437,10 +438,10 @@ class Hist:
                 if not isinstance(o, S.MArrayRef) and not isinstance(o, (S.MDouble, S.MInt, S.MLogical)):
                     return bad("not numeric")
                 if isinstance(o, S.MArrayRef):
-                    f = o.desc.split()
-                    raw = bytes.fromhex(f[4]) if f[4] != "-" else b""
+                    val = o.scalar()
                     self.s.simple("free %d" % o.slot, "ok")
-                    val = struct.unpack("<Q", raw[:8])[0] if len(raw) >= 8 else None
+                    if val is not None and ty.name != "int":
+                        val &= 0xFFFFFFFFFFFFFFFF
                 else:
                     val = self.s.num(o)
                 want = int(r[2:])
@@ -506,16 +507,27 @@ class Hist:
         for o in self.s.objects.values():
             for p in o.ptrs:
                 exp_coll[p[4:]] = exp_coll.get(p[4:], 0) + 1
-        for name, n in sorted(st["coll"].items()):
-            if n != exp_coll.get(name, 0):
-                self.add("G4", "G4:collector:%s" % ("leak" if n > exp_coll.get(name, 0) else "missing"),
-                         "after %s: collector_%s holds %d handles, %d live MATLAB objects carry ptr_%s" %
-                         (after, name, n, exp_coll.get(name, 0), name))
+        # The collectors are found by name in the generated C++ (`static Collector_X collector_X;`) and matched
+        # with the `ptr_X` properties of the .m proxies.  If a tree names them differently the per-class
+        # comparison is not possible: then only the totals are compared (or nothing, if no collector was
+        # found at all) -- the library-side live set below does not depend on any name.
+        if st["coll"] and all(name in st["coll"] for name in exp_coll):
+            for name, n in sorted(st["coll"].items()):
+                if n != exp_coll.get(name, 0):
+                    self.add("G4", "G4:collector:%s" % ("leak" if n > exp_coll.get(name, 0) else "missing"),
+                             "after %s: collector_%s holds %d handles, %d live MATLAB objects carry ptr_%s" %
+                             (after, name, n, exp_coll.get(name, 0), name))
+                    return False
+        elif st["coll"]:
+            self.pr("collector_names_not_matched")
+            have, want_n = sum(st["coll"].values()), sum(exp_coll.values())
+            if have != want_n:
+                self.add("G4", "G4:collector:%s" % ("leak" if have > want_n else "missing"),
+                         "after %s: the collectors hold %d handles in total, live MATLAB objects carry %d" %
+                         (after, have, want_n))
                 return False
-        for name in exp_coll:
-            if name not in st["coll"]:
-                self.add("G4", "G4:collector:unknown", "MATLAB objects carry ptr_%s but no such collector exists" % name)
-                return False
+        else:
+            self.pr("collectors_unobservable")
         designated = {}
         for o in self.s.objects.values():
             if o.oid in self.tr.serial:
@@ -947,10 +959,10 @@ class Hist:
     def same_value(self, pt, got, want):
         if pt.kind == "prim" and pt.name in ("int", "bool", "size_t"):
             if isinstance(got, S.MArrayRef):
-                f = got.desc.split()
-                raw = bytes.fromhex(f[4]) if f[4] != "-" else b""
+                g = got.scalar()
                 self.s.simple("free %d" % got.slot, "ok")
-                g = struct.unpack("<Q", raw[:8])[0]
+                if g is None:
+                    return False
             else:
                 g = self.s.num(got)
             w = int(self.s.num(want))
